@@ -192,3 +192,11 @@ Example ex_frame_split :
   /\ FrameText.frame_of_text ex_numval (b "{""id"":5,""type"":""subscribe""}") = None
   /\ FrameText.frame_of_text ex_numval (b "{""type"":""subscribe""}}") = None.
 Proof. repeat split; vm_compute; reflexivity. Qed.
+
+(** integer tokens converted by the model: the IEEE-754 bits of 0, -0, 1, 7, 100, -3, 2^53 - 1, 2^31 - 1;
+    2^53 and everything that is not a plain integer is left to the token table *)
+Example ex_int_bits :
+  map (fun s => JsonText.int_bits (b s)) ["0"; "-0"; "1"; "7"; "100"; "-3"; "9007199254740991"; "2147483647"; "9007199254740992"; "1.0"; "-"]
+  = [Some 0%N; Some 9223372036854775808%N; Some 4607182418800017408%N; Some 4619567317775286272%N; Some 4636737291354636288%N;
+     Some 13837309855095848960%N; Some 4845873199050653695%N; Some 4746794007244308480%N; None; None; None].
+Proof. vm_compute. reflexivity. Qed.
